@@ -528,6 +528,14 @@ func TestReplay(t *testing.T) {
 			}
 			return CheckTokens(c)
 		},
+		"TestCrossSessions": replaySess,
+		"TestTLSPeers": func(raw json.RawMessage) hx.Vs {
+			var c PeersCase
+			if err := json.Unmarshal(raw, &c); err != nil {
+				return hx.Vs{{Sig: "harness:decode", Msg: err.Error()}}
+			}
+			return CheckPeers(c)
+		},
 		"TestTLSIdentity": func(raw json.RawMessage) hx.Vs {
 			var c TLSCase
 			if err := json.Unmarshal(raw, &c); err != nil {
